@@ -479,6 +479,26 @@ func (s *Scope) evalCall(e ECall) Term {
 	}
 	if _, isSel := e.Fun.(EIdent); isSel {
 		switch fname {
+		case "rdpos", "rdlen", "rdat", "rdbuf", "rddata", "rdbad":
+			// bufio.Reader model: position, length of the stream, byte at an absolute index, guaranteed buffered bytes
+			r := s.Eval(e.Args[0])
+			x.bufioDecl(r.Sort)
+			switch fname {
+			case "rdpos":
+				return x.rdPos(r)
+			case "rdbuf":
+				return x.rdBuf(r)
+			case "rdbad":
+				return x.rdBad(r)
+			case "rdlen":
+				return w.SeqLen(x.rdData(r))
+			case "rddata":
+				d := x.rdData(r)
+				d.GoT = types.NewSlice(types.Typ[types.Uint8])
+				return d
+			default:
+				return w.SeqAt(x.rdData(r), s.Eval(e.Args[1]))
+			}
 		case "istype", "astype":
 			// dynamic type test / assertion value of an interface value: istype(v, T), astype(v, T);
 			// T is a type name (Int, core.Name) or a string literal for pointer types ("*core.Stream")
